@@ -32,6 +32,26 @@ def reflect(run, tabs):
         if live != [(a, b) for a, b in members]:
             # aliases (duplicate values) show up as a difference between __members__ and iteration
             run.violation(f"translator/implementation differ on enum {name}", {"kind": "translator", "table": "enum", "name": name}, no_input=True)
+        # the name printed in verbose mode and the number printed in compact mode denote the same member
+        import stationeers_pytrapic.utils as U
+        saved = U._output_mode
+        try:
+            for mem in E.__members__.values():
+                U.set_output_mode(U.OutputMode.VERBOSE)
+                tv = U.format_enum(mem)
+                U.set_output_mode(U.OutputMode.COMPACT)
+                tc = U.format_enum(mem)
+                if isinstance(tv, str):
+                    cls_, _, mname = tv.rpartition(".")
+                    owner = getattr(TG, cls_, None) if cls_ else E
+                    denoted = int(owner.__members__[mname].value) if owner is not None and mname in owner.__members__ else None
+                else:
+                    denoted = tv
+                if not (isinstance(tc, int) and tc == int(mem.value) and denoted == int(mem.value)):
+                    run.violation(f"enum member {name}.{mem.name} (= {int(mem.value)}) is printed as {tv!r} in verbose mode (denotes {denoted}) and {tc!r} in compact mode",
+                                  {"kind": "enum_print", "name": name, "member": mem.name, "value": int(mem.value), "verbose": tv, "compact": tc, "verbose_denotes": denoted})
+        finally:
+            U.set_output_mode(saved)
         seen = {}
         for m, v in live:
             if v in seen:
